@@ -170,6 +170,10 @@ func Spec(n *Node, cfg SpecCfg, in any, dst reflect.Value) *SpecOut {
 			out.cur, out.curIdx = f.node, -3
 			if f.behaviour == "issue" {
 				out.add("post.path", "post_issue", "*") // a returned ZogIssue is reported as it is
+			} else if f.behaviour == "ctxissue" {
+				out.add(f.path, "post_ctx", f.node.ZType()) // ctx.Issue() is prefilled with the node's path and type
+			} else if f.behaviour == "issue-nopath" {
+				out.add("", "post_issue", "*") // ... also when it names no path
 			} else {
 				out.add(f.path, "*", "*") // an issue wrapping the returned error at the node's path
 			}
@@ -274,12 +278,12 @@ func (o *SpecOut) schedulePosts(n *Node, dst reflect.Value, path string, absentO
 			} else {
 				o.postGated = true
 			}
-		case "error", "issue", "wrapped":
+		case "error", "issue", "issue-nopath", "wrapped", "ctxissue":
 			// A failing PostTransform is determined only when it is the single such visit of the execution and
 			// nothing else produces an issue (otherwise which transform still runs depends on the visit order,
 			// by the documented gating); Spec() settles that once the whole record has been read.
-			if absentOptional || n.Catch != nil {
-				o.unknown("failing PostTransform on a skipped or catching node")
+			if absentOptional {
+				o.unknown("failing PostTransform on a skipped node")
 				continue
 			}
 			if len(o.Issues) > 0 {
